@@ -391,6 +391,8 @@ def seq_access(eng, seq, st, node):
             if is_ref_kind(v.k):
                 b = s.heap.bound('el:ref')
                 s.assume(z3.And(v.t >= 0, v.t < s.heap.alloc, z3.Implies(seq.t < b, v.t < b)))
+                if s.heap.known_below(seq.t, s.heap.bound_pos('el:ref')):
+                    s.heap.note_below(v.t, s.heap.bound_pos('el:ref'))
             return v
         return get, n
     if isinstance(k, tuple) and k[0] == 'pylist':
